@@ -168,6 +168,19 @@ func runClientLifeCase(c cfg, seed uint64, nconn int, stopTwice, cbShutdown bool
 			mon.violate("C08 connected UDP socket: more OnTraffic than datagrams", fmt.Sprintf("%d datagrams sent, %d OnTraffic", want, got))
 		}
 		keys["client|udp|datagrams"] = struct{}{}
+		// an empty datagram from the peer: if the framework takes it as the end of the connection, that close is
+		// peer-induced, so OnClose must carry an error (checked in onClose: only the remote cause is armed)
+		if uc := udpConns[0]; r.Bool() {
+			if cs, _ := ctxState(uc); cs != nil {
+				cs.armedRemote.Store(true)
+				_, _ = udpSrv.WriteToUDP([]byte{}, uc.LocalAddr().(*net.UDPAddr))
+				if ok, _ := waitCondQuick(500*time.Millisecond, func() bool { return atomic.LoadInt32(&cs.state) == 2 }); ok {
+					keys["client|udp|empty-datagram-closes-the-connection"] = struct{}{}
+				} else {
+					keys["client|udp|empty-datagram-delivered-or-ignored"] = struct{}{}
+				}
+			}
+		}
 	}
 	time.Sleep(time.Duration(r.Intn(5)) * time.Millisecond)
 	// close a third of the connections explicitly (local cause), a third from the peer side
